@@ -9,9 +9,13 @@ EXPLANATION = (
     "Composition. The Ovld-level guarantees that class bodies rely on are the heap contracts of C16 (copy creates a fresh node, registering / adding "
     "mixins on it never changes a parent, defns = inherited overlaid by own). self threading: every emitted entry point for a method shape passes self "
     "first and unchanged (per-instance obligations of C03 for the ',self' shapes), the dependent wrapper threads self iff the first handler takes it "
-    "(wrap_dependent contract). The class-body namespace (ovld_cls_dict.__setitem__), the metaclass __prepare__ and the descriptor binding go through "
-    "the Python metaclass protocol and are checked in R mode only (bounded native suite: one body with repeated names, extend_super with one or "
-    "several marked definitions, sibling subclasses, several bases, deep hierarchies, plain mixin classes, recurse / call_next on bound methods)."
+    "(wrap_dependent contract). The class-body namespace and the metaclass hook are executed on the heap model (mode B, task class_body[*]): the real "
+    "ovld_cls_dict.__setitem__, OvldMC.__prepare__, extend_super, to_ovld, is_ovld, ovld, Ovld.copy / add_mixins / register / rename run symbolically over "
+    "concrete class shapes (repeated names, extend_super once / twice / over two bases, shadowing, __prepare__ over direct and inherited base methods); "
+    "posts: the namespace entry is the user-facing function of ONE Ovld whose method set is the inherited methods then the body's definitions, a fresh "
+    "node, and no base class's Ovld changes. recode.tail: one method rewritten for two functions (base and subclass copy) gets two code names. The "
+    "descriptor binding and type.__new__ go through the Python metaclass protocol and are checked in R mode only (bounded native suite: sibling "
+    "subclasses, several bases, deep hierarchies, plain mixin classes, recurse / call_next inherited by subclasses in every order of first use)."
 )
 ASSUMPTIONS = ["instance binding is CPython's function descriptor"]
 TRUSTED = ["Python metaclass protocol"]
@@ -21,8 +25,11 @@ BOUNDS = {"native": "native/c17_classes.py scenarios"}
 def tasks(tier):
     from contracts import typemap_c
 
-    t = _core.defns_tasks()[:4] + _core.register_frame_tasks()[:2] + _core.guard_tasks()[2:]
+    t = _core.cls_body_tasks() + _core.defns_tasks()[:4] + _core.defns_history_tasks()[:2] + _core.register_frame_tasks()[:2] + _core.guard_tasks()[2:]
     t += [dict(name="MultiTypeMap.wrap_dependent", build=typemap_c.t_wrap_dependent, mode="U")]
+    from contracts import recode_c
+
+    t += [dict(name="recode.tail", build=recode_c.t_recode_tail, mode="U")]
     t += _gen.entry_tasks(tier)
     return t
 
